@@ -23,6 +23,7 @@ func propC17(a *Analysis, r *Registry) {
 	X := b.X
 	S := X.S
 	const rB = "B-C17 formula"
+	sweepC17(a, r, b)
 	X.NoInline["scale.(logTicker).TicksAtLevel"] = true // kept as an application (its own clauses are decided below)
 	linLets := [][2]string{
 		{"eb", "ite(s.Base==0, 10, s.Base)"},
